@@ -450,9 +450,103 @@ def eval_managers(case):
     return res
 
 
+def _mellin_ref(bf_x, areas_x, N, x, is_log):
+    """int_{z > x, z in support} p(z) z^(N-1) dz * x^(-N) by adaptive quadrature of the x-space basis function."""
+    from scipy import integrate as si
+
+    tot = 0.0 + 0.0j
+    for a in areas_x:
+        lo, hi = (math.exp(a.xmin), math.exp(a.xmax)) if is_log else (a.xmin, a.xmax)
+        if hi <= x:
+            continue
+
+        def f(z, part):
+            v = bf_x(z) * np.exp((N - 1.0) * np.log(z) - N * np.log(x))
+            return v.real if part == 0 else v.imag
+
+        lo = max(lo, 1e-300)
+        re_ = si.quad(f, lo, hi, args=(0,), epsabs=1e-13, epsrel=1e-12, limit=200)[0]
+        im_ = si.quad(f, lo, hi, args=(1,), epsabs=1e-13, epsrel=1e-12, limit=200)[0]
+        tot += re_ + 1j * im_
+    return tot
+
+
+def eval_compute(case):
+    """The declared interpolation settings reach the integration kernel of a real solve: every kernel call carries the
+    declared mode, a declared node and the declared basis; and the N-space factor that the kernel multiplies in is the
+    Mellin transform of the declared x-space basis function (reference: adaptive quadrature of that function)."""
+    import sys
+    import types
+
+    import eko.evolution_operator  # noqa
+    from eko import interpolation
+
+    res = Result()
+    grid, degree, is_log = _grid(case["grid"]), case["degree"], case["is_log"]
+    cfg = dict(xgrid=grid, degree=degree, is_log=is_log, mugrid=[[10.0, 4]], order=[1, 0], skip_singlet=True)
+    where = f"LO non-singlet solve, grid={case['grid']} degree={degree} is_log={is_log}"
+    evop = sys.modules["eko.evolution_operator"]
+    calls = []
+    real_qk = evop.quad_ker
+
+    def spy(u, **kw):
+        calls.append((bool(kw["is_log"]), float(kw["logx"]), tuple(np.asarray(kw["areas"], dtype=float).ravel().tolist())))
+        return real_qk(u, **kw)
+
+    def quad(f, a, b, **kw):
+        v = f(0.5) + f(0.8)
+        return (v, 0.0, {}) if kw.get("full_output") else (v, 0.0)
+
+    saved = evop.integrate, evop.quad_ker
+    evop.integrate, evop.quad_ker = types.SimpleNamespace(quad=quad), spy
+    try:
+        ops = cards.solve_ops(cfg, tag="c40c")
+    except Exception as exc:  # noqa
+        res.fail("solve/raises", f"{where}: {type(exc).__name__}: {exc}")
+        return res
+    finally:
+        evop.integrate, evop.quad_ker = saved
+    if not calls:
+        res.fail("solve/no-kernel-call", f"{where}: the solve never called the integration kernel")
+        return res
+    ref_n = interpolation.InterpolatorDispatcher(interpolation.XGrid(list(grid), log=is_log), degree, mode_N=True)
+    ref_areas = {tuple(np.asarray(bf.areas_representation, dtype=float).ravel().tolist()) for bf in ref_n}
+    nodes = {float(np.log(x)) for x in grid}
+    modes = {c[0] for c in calls}
+    if modes != {bool(is_log)}:
+        res.fail("solve/kernel/is_log-ignored", f"{where}: kernel called with is_log={sorted(modes)}")
+    if not {c[1] for c in calls} <= nodes:
+        res.fail("solve/kernel/foreign-node", f"{where}: kernel called at log x not on the declared grid: {sorted({c[1] for c in calls} - nodes)[:3]}")
+    if not {c[2] for c in calls} <= ref_areas:
+        res.fail("solve/kernel/foreign-basis", f"{where}: kernel called with a basis configuration that the declared (grid, degree, mode) does not generate")
+    # ---- linear mode: N-space factor of the kernel == Mellin transform of the declared x-space basis
+    # (log mode drops boundary terms that vanish under the inversion; its formula is the subject of C35)
+    itx = interpolation.InterpolatorDispatcher(interpolation.XGrid(list(grid), log=is_log), degree, mode_N=False)
+    worst = 0.0
+    for j in sorted({0, len(grid) // 2, len(grid) - 1}) if not is_log else []:
+        bfn, bfx = ref_n[j], itx[j]
+        for k in sorted({0, max(0, j - 1), j}):
+            x = grid[k]
+            if x >= 1.0:
+                continue
+            for N in (1.5 + 0.0j, 2.0 + 1.0j, 3.2 - 4.0j):
+                got = interpolation.evaluate_grid(N, is_log, float(np.log(x)), bfn.areas_representation)
+                want = _mellin_ref(lambda z: bfx(z), bfx.areas, N, x, is_log)
+                d = abs(got - want) / (1.0 + abs(want))
+                worst = max(worst, d)
+                if not d <= 1e-8:
+                    res.fail(
+                        f"kernel-basis/log={is_log}/not-the-mellin-transform",
+                        f"{where}: basis j={j} at x_k={x}, N={N}: kernel factor {got}, quadrature of the x-space basis {want}",
+                    )
+    res.info = {"kernel_calls": len(calls), "worst_rel": worst}
+    res.outcome = f"compute:{is_log}:{degree}:" + ("ok" if not res.fails else "fails")
+    return res
+
+
 EVAL = dict(
     theory=eval_theory, operator=eval_operator, plant=eval_plant, xgridobj=eval_xgridobj,
-    synthetic=eval_synthetic, managers=eval_managers,
+    synthetic=eval_synthetic, managers=eval_managers, compute=eval_compute,
 )
 
 
@@ -492,6 +586,8 @@ def run(ctx):
                 nsyn += 1
     for g, degree, is_log in itertools.product(["five", "smallx"], [1, 2], [True, False]):
         cases.append(dict(kind="managers", grid=g, degree=degree, is_log=is_log))
+    for g, degree, is_log in itertools.product(["five"] if not ctx.thorough() else ["five", "smallx", "make_grid"], [1, 2], [True, False]):
+        cases.append(dict(kind="compute", grid=g, degree=degree, is_log=is_log))
     results = ctx.run_cases(cases, evaluate)
     inner = sum((r[1][3] or {}).get("max_inner_points", 1) for r in results)
     n_th = len(list(_product(TH_INNER)))
@@ -505,7 +601,7 @@ def run(ctx):
         "(degree, log flag, 4 grids incl. generated ones, polarised/time-like, 3 mu grids, max order); "
         f"{sum(len(v) + 1 for v in PLANTS.values())} NumPy plants into real cards; 16 XGrid-object holders; "
         f"{nsyn} synthetic DictLike classes (all subsets of 7 field features x 2 array-hint spellings) with every leaf planted; "
-        f"8 real EKOs for runner.parts._managers; {inner} objects round-tripped in total; non-trivial = all"
+        f"8 real EKOs for runner.parts._managers; real LO solves (kernel calls recorded: mode, node, basis; kernel basis factor vs quadrature of the x-space basis) for (grid, degree, mode); {inner} objects round-tripped in total; non-trivial = all"
     )
     ctx.assumptions += [
         "equality is field-by-field value equality with all NaNs identified and XGrid compared by grid bits and log flag "
